@@ -68,6 +68,23 @@ def workload():
         hdr = headers[i % 3]
         cases.append(('links-json-%d' % i, 'links_json', dict(a_text=a, b_text=b, a_headers=hdr, b_headers=hdr)))
         cases.append(('links-html-%d' % i, 'links', dict(a_text=a, b_text=b)))
+    # image galleries whose images carry several source URLs (src + srcset), the same URLs in another order in the other version
+    def _img(n, rev):
+        base = 'https://img.example.org/photos/%d' % n
+        cands = ['%s-480.jpg 480w' % base, '%s-800.jpg 800w' % base, '%s-1200.jpg 1200w' % base, '%s-320.jpg 320w' % base]
+        if rev:
+            cands.reverse()
+        return '<img alt="photo %d" src="%s-320.jpg" srcset="%s">' % (n, base, ','.join(cands))
+    gal_a = '<h1>Gallery</h1>' + ''.join('<p>before%d %s older%d</p>' % (r_, ' '.join(_img(r_ * 3 + k, False) for k in range(3)), r_) for r_ in range(24))
+    gal_b = '<h1>Gallery</h1>' + ''.join('<p>after%d %s newer%d</p>' % (r_, ' '.join(_img(r_ * 3 + k, True) for k in range(3)), r_) for r_ in range(24))
+    cases.append(('gallery', 'html_token', dict(a_text=gal_a, b_text=gal_b, include='all', url_rules='')))
+    cases.append(('gallery-rev', 'html_token', dict(a_text=gal_b, b_text=gal_a, include='combined')))
+    # a page beyond the spacer cap, diffed against its next version, again, and against the version after that
+    cards = ['<div class="card"><p>card %d text</p></div>' % i for i in range(900)]
+    big0, big1 = ''.join(cards), ''.join(cards[:450] + ['<div class="card"><p>card 450 changed</p></div>'] + cards[451:])
+    big2 = ''.join(cards[:450] + ['<div class="card"><p>card 450 changed again</p></div>'] + cards[451:])
+    for name, x, y in (('big-0-1', big0, big1), ('big-0-1-again', big0, big1), ('big-1-2', big1, big2), ('big-0-0', big0, big0)):
+        cases.append((name, 'html_token', dict(a_text=x, b_text=y, include='insertions')))
     # pages nested deeper than the interpreter's default recursion limit, first and last in the workload: whether they can be diffed
     # must not depend on which differ (or module) happened to run before in this process
     deep_a = '<div>' * 1200 + '<p>bottom old</p>' + '</div>' * 1200
